@@ -408,6 +408,10 @@ def coq_eval(tag, imports, exprs, timeout=1200, shard=None, preamble='', tolerat
                 for e in todo:
                     fh.write('Eval vm_compute in (%s).\n' % e.replace('\n', ' '))
             rc, out = sh(['coqc', '-noglob', '-Q', COQ, 'V', f], cwd=d, timeout=timeout)
+            if rc != 0 and 'Error' not in out:
+                # killed from outside (memory pressure, a signal) or timed out without a Coq error: once more, alone
+                time.sleep(2)
+                rc, out = sh(['coqc', '-noglob', '-Q', COQ, 'V', f], cwd=d, timeout=timeout)
             if rc == 0:
                 items = parse_items(out)
                 if len(items) != len(todo):
